@@ -152,3 +152,4 @@ def mapping_rules(ctx, repo):
     ctx.call(RR2.r_insertion_order_load, repo)
     ctx.call(R6B.r_constructed_key_hashing, repo)
     ctx.call(R6B.r_pairs_from_nodes, repo)
+    ctx.call(R12.r_foreign_node_lists_intact, repo)
